@@ -955,6 +955,117 @@ def diff_phase(out: Outcome, tag, op, arr, res, ci, model_line):
                                   detail="implementation vs Lean Munkres model differ in: " + where))
 
 
+# --------------------------------------------------------------------------------------
+# extreme magnitudes for the dtype (exact oracle in Python integers / Fractions; no model line: the values are outside
+# the Lean driver's comfortable range only in size, but the point of this block is the implementation's INPUT PREAMBLE:
+# dtype promotion, the finiteness test and the work dtype, which must not lose or refuse finite values)
+
+
+def gen_extreme(ctx):
+    """Finite matrices whose values are extreme for their dtype while every Munkres difference stays exactly representable:
+    entries = base + scale*k with small integer k.  Classes: float16 / float32 / float64 whose SUM overflows the dtype although
+    every entry is finite; uint64 and int64 offsets far beyond 2**53 (distinguishable only in integer arithmetic)."""
+    rng = ctx.rng
+    for _ in range(ctx.scale(160, 2000)):
+        cls = rng.choice(["f16sum", "f32sum", "f64sum", "u64big", "i64big", "i64neg", "f16big"])
+        n, m = rng.randint(2, 6), rng.randint(2, 6)
+        if rng.random() < 0.4:
+            m = n
+        if cls == "f16sum":
+            n = m = rng.randint(30, 40) if rng.random() < 0.3 else rng.randint(5, 7)
+            a = np.array([[float(rng.randint(1000, 2040) if n <= 7 else rng.randint(60, 200)) for _ in range(m)] for _ in range(n)], dtype=np.float16)
+        elif cls == "f16big":
+            a = np.array([[float(rng.choice([20000, 30000, 24000, 28000, 32000])) for _ in range(m)] for _ in range(n)], dtype=np.float16)
+        elif cls == "f32sum":
+            a = np.array([[float(rng.randint(1, 200)) * 2.0**120 for _ in range(m)] for _ in range(n)], dtype=np.float32)
+        elif cls == "f64sum":
+            n, m = max(n, 4), max(m, 4)
+            a = np.array([[float(rng.randint(1, 5)) * 2.0**1020 for _ in range(m)] for _ in range(n)], dtype=np.float64)
+        elif cls == "u64big":
+            base = rng.choice([2**60, 2**62, 2**63, 2**64 - 64, 2**53 + 1])
+            a = np.array([[base + rng.randint(0, 9) for _ in range(m)] for _ in range(n)], dtype=np.uint64)
+        elif cls == "i64big":
+            base = rng.choice([2**60, 2**62, 2**63 - 64, 2**53 + 1])
+            a = np.array([[base + rng.randint(0, 9) for _ in range(m)] for _ in range(n)], dtype=np.int64)
+        else:
+            base = -rng.choice([2**60, 2**62, 2**63 - 64, 2**53 + 1])
+            a = np.array([[base + rng.randint(0, 9) for _ in range(m)] for _ in range(n)], dtype=np.int64)
+        yield "extreme:" + cls, a
+
+
+def _exact(x):
+    from fractions import Fraction
+
+    if isinstance(x, (bool, np.bool_)):
+        return Fraction(int(x))
+    if isinstance(x, (int, np.integer)):
+        return Fraction(int(x))
+    return Fraction(float(x))
+
+
+def oracle_exact(arr, res, res_idx):
+    """The property on one finite numeric matrix, in exact arithmetic (no numpy reductions in the input's dtype)."""
+    from fractions import Fraction
+
+    bad = []
+    n, m = arr.shape
+    k = min(n, m)
+    C = [[_exact(arr[i, j]) for j in range(m)] for i in range(n)]
+    for label, r in (("return_cost", res), ("index-only", res_idx)):
+        if r[0] == "hang":
+            bad.append(("oracle:terminates", f"{label}: {r[1]}"))
+        elif r[0] == "err":
+            bad.append(("oracle:accepts", f"{label}: finite numeric matrix refused: {r[1]}: {r[2]}"))
+    if bad:
+        return bad
+    best = None
+    if k <= 6 and max(n, m) <= 7:
+        if n <= m:
+            best = min(sum(C[i][p[i]] for i in range(k)) for p in itertools.permutations(range(m), k))
+        else:
+            best = min(sum(C[p[j]][j] for j in range(k)) for p in itertools.permutations(range(n), k))
+    for label, r in (("return_cost", res), ("index-only", res_idx)):
+        rows, cols, red = r[2], r[3], r[4]
+        if rows.ndim != 1 or len(rows) != k or len(cols) != k or len(set(rows.tolist())) != k or len(set(cols.tolist())) != k:
+            bad.append(("oracle:matching", f"{label}: not min(n,m) distinct row/column pairs"))
+            continue
+        if any(b <= a for a, b in zip(rows.tolist(), rows.tolist()[1:])):
+            bad.append(("oracle:rows_sorted", f"{label}: row indices are not increasing"))
+        tot = sum(C[int(i)][int(j)] for i, j in zip(rows.tolist(), cols.tolist()))
+        if best is not None and tot != best:
+            bad.append(("oracle:optimal", f"{label}: total {tot} but the exact brute-force minimum is {best} (excess {tot - best})"))
+        if red is not None:
+            if red.shape != arr.shape or not np.all(np.isfinite(np.asarray(red, dtype=float))):
+                bad.append(("oracle:reduced_shape", f"{label}: reduced matrix has shape {red.shape} or non-finite entries"))
+                continue
+            R = [[_exact(red[i, j]) for j in range(m)] for i in range(n)]
+            if min(min(row) for row in R) < 0:
+                bad.append(("oracle:reduced_nonneg", f"{label}: reduced matrix has a negative entry"))
+            if any(R[int(i)][int(j)] != 0 for i, j in zip(rows.tolist(), cols.tolist())):
+                bad.append(("oracle:reduced_zero_on_pairs", f"{label}: reduced matrix is not zero on a chosen pair"))
+            D = [[C[i][j] - R[i][j] for j in range(m)] for i in range(n)]
+            if any(D[i][j] - D[i][0] - D[0][j] + D[0][0] != 0 for i in range(n) for j in range(m)):
+                bad.append(("oracle:reduced_rowcol", f"{label}: cost - reduced is not u_i + v_j exactly"))
+            elif best is None and n == m and not bad:
+                # square: sum(u) + sum(v) bounds every assignment from below when reduced >= 0; equality on the returned one
+                lb = sum(D[i][0] for i in range(n)) + sum(D[0][j] - D[0][0] for j in range(m))
+                if tot != lb:
+                    bad.append(("oracle:optimal_dual", f"{label}: total {tot} differs from the dual bound {lb}"))
+    return bad
+
+
+def extreme_phase(ctx, out: Outcome):
+    for tag, arr in gen_extreme(ctx):
+        res = call_impl(arr, full=False, limit=30.0)
+        res_idx = call_impl(arr, full=False, limit=30.0, return_cost=False)
+        out.evaluations += 2
+        out.count("block:" + tag)
+        out.nontrivial(key_of(arr))
+        for kind, msg in oracle_exact(arr, res, res_idx):
+            out.violations.append(Finding(kind, {"matrix": case_json(arr), "op": "X"}, observed=canon_impl(res, full=False)[:2000], detail=msg))
+
+
+
 def cert_ready(arr, res):
     return res[0] == "ok" and len(res[2]) == len(res[3]) and res[4].shape == arr.shape and bool(np.all(np.isfinite(res[4])))
 
@@ -1004,6 +1115,7 @@ def run(ctx: Ctx) -> Outcome:
         if op != "K" and not hung():
             res, ci = impl_phase(ctx, out, tag, op, arr)
             done[i] = (res if op != "T" else (res[0],), ci)  # traces are kept only in canonical form
+    extreme_phase(ctx, out)
     seqlog = seq_phase(ctx, out, seqs, hung)
     model = {}
     for part, f in tfut:
@@ -1065,6 +1177,13 @@ def replay(ctx: Ctx, case) -> Outcome:
         return out
     arr = case_array(case["matrix"])
     op = case.get("op", "T")
+    if op == "X":
+        res = call_impl(arr, full=False, limit=30.0)
+        res_idx = call_impl(arr, full=False, limit=30.0, return_cost=False)
+        out.evaluations += 2
+        for kind, msg in oracle_exact(arr, res, res_idx):
+            out.violations.append(Finding(kind, {"matrix": case_json(arr), "op": "X"}, observed=canon_impl(res, full=False)[:2000], detail=msg))
+        return out
     res, ci = impl_phase(ctx, out, "replay", op, arr)
     model_line = cert_line = None
     if ctx.model_available:
